@@ -12,7 +12,7 @@ import ast
 import re
 
 from sa import sigdata, families, codec, tables
-from sa.interp import alpha, sl, Interp, Scenario, Sym, Const, Bytes, Enum, render, render_items, merge_consts, render_item
+from sa.interp import alpha, sl, ListV, Interp, Scenario, Sym, Const, Bytes, Enum, render, render_items, merge_consts, render_item
 from sa.loader import AnalysisError, dotted
 from sa.sigdata import enum_const
 from sa.templates import length_covers_run, unmodelled, b2i_forms, resolve_lookup, display_keys, area_template, match, render_template, Pred, C, BYTE, SYM
@@ -683,6 +683,39 @@ def signature_class_for(prog, f, e):
     return next(iter(got))
 
 
+def _with_class_attrs(prog, ci, text, me):
+    """`text` with every `<self>.<name>` that is a class-level attribute of ci (not a literal the canonicaliser could inline,
+    e.g. an object built once from a comprehension over another class attribute) replaced by the value text of its defining
+    expression, evaluated by the interpreter in the class body's scope."""
+    from sa.interp import Frame, State
+    from sa.loader import FunctionInfo
+
+    def value(name):
+        owner = next((c for c in ci.mro() if name in c.attrs), None)
+        if owner is None:
+            return None
+        fr = Frame(Interp(prog, Scenario(inline=noinline)), FunctionInfo(ast.parse('def _f(): pass').body[0], owner.module, owner), 0)
+        st = State()
+        for k, av in owner.attrs.items():
+            if k != name:
+                try:
+                    lit = ast.literal_eval(av)
+                    st.env[k] = ListV([Const(x) for x in lit], 'tuple') if isinstance(lit, (tuple, list)) else Const(lit)
+                except Exception:
+                    pass
+        try:
+            return render(fr.ev(owner.attrs[name], st))
+        except Exception:
+            return None
+
+    def rep_(m):
+        if ci.find_method(m.group(1)) is not None or ci.find_prop(m.group(1)) is not None:
+            return m.group(0)
+        v = value(m.group(1))
+        return v if v is not None else m.group(0)
+    return re.sub(r'(?<![\w.])%s\.(\w+)(?![\w(])' % re.escape(me), rep_, text)
+
+
 def check_sig_codecs(rep, prog):
     ci = prog.cls('pgpy.packet.packets', 'SignatureV4')
     f = ci.methods.get('pubalg_int')
@@ -766,7 +799,8 @@ def check_sig_codecs(rep, prog):
         r = render(s.ret)
         m = re.match(r'^encoder\.encode\((.*)\)$', r)
         seq = m.group(1) if m else None
-        comps = re.findall(r"NamedType\('(\w+)', (\w+)\(\)\)", seq or '')
+        seq_shown = _with_class_attrs(prog, dsa, seq, f.params[0]) if seq else seq      # layout hoisted to a class-level attribute
+        comps = re.findall(r"NamedType\('(\w+)', (\w+)\(\)\)", seq_shown or '')
         sets = [tuple(c[1]) for c in s.calls if seq is not None and c[0] == seq + '.setComponentByName']
         ok = bool(m) and seq.startswith('Sequence(') and comps == [('r', 'Integer'), ('s', 'Integer')] and \
             sorted(sets) == [("'r'", 'self.r'), ("'s'", 'self.s')]
